@@ -16,7 +16,10 @@ def strip_impl(o):
 
 def agree(im, mo):
     if not mo.startswith("n="):
-        return im == mo        # deterministic model runs (whole-server bursts, shutdown scenarios)
+        # deterministic model runs (whole-server bursts, shutdown scenarios); across connections only
+        # the multiset of answers is compared, never an order the code does not define
+        norm = lambda o: re.sub(r"a=(\S+)", lambda m: "a=" + ",".join(sorted(m.group(1).split(","))), o)
+        return norm(im) == norm(mo)
     if "BUDGET-EXHAUSTED" in mo:
         return True        # exploration cut short: no verdict from the model on this case
     allowed = [x.strip() for x in mo.split(" ", 1)[1].split(" | ")] if " " in mo else []
